@@ -16,17 +16,18 @@ import (
 // single goroutine this is byte for byte what a kill -9 at that instant
 // leaves behind.
 var arm struct {
-	mode   string // "wal" or "page"
-	dir    string
-	db     string
-	n      int
-	rec    int
-	flush  int
-	inFl   bool
-	synced int64
-	events []proto.Event
-	err    string
-	killAt int // > 0: SIGKILL self at the n-th event instead of imaging
+	mode    string // "wal" or "page"
+	dir     string
+	db      string
+	n       int
+	rec     int
+	flush   int
+	inFl    bool
+	synced  int64
+	events  []proto.Event
+	err     string
+	killAt  int // > 0: SIGKILL self at the n-th event instead of imaging
+	skipped int
 }
 
 func walSize() int64 {
@@ -58,6 +59,13 @@ func armImage(kind string, off uint64) {
 			out.Flush()
 			killSelf()
 		}
+		return
+	}
+	if arm.mode == "wal" && arm.n > 48 && arm.n%8 != 0 && kind != "sync" {
+		// a statement that issues hundreds of log writes: the first 48 crash
+		// points, then every 8th and every fsync (each image is a copy of the
+		// database)
+		arm.skipped++
 		return
 	}
 	if arm.mode == "wal" {
